@@ -79,12 +79,14 @@ def classify_escape(point, src, exc):
         return "F03c3"
     if name == "AttributeError" and where == "is_adjacent" and "?" in src and "'tuple' object has no attribute" in str(exc):
         return "F03e"
-    if isinstance(exc, RecursionError) and gen_py.nesting_depth(src) >= 15 or (isinstance(exc, RecursionError) and _crude_depth(src) >= 15):
+    if isinstance(exc, RecursionError) and max(gen_py.nesting_depth(src), _crude_depth(src)) >= 15:
         return "F01g"
     return None
 
 
 def _crude_depth(src):
+    """nesting measure for inputs CPython's tokenizer may reject: brackets, indentation, and the right-recursive chains
+    (unary operators, not, lambda, conditional expressions, power) that also cost one recursion level per element"""
     d = best = 0
     for ch in src:
         if ch in "([{":
@@ -92,9 +94,9 @@ def _crude_depth(src):
             best = max(best, d)
         elif ch in ")]}":
             d = max(0, d - 1)
-    # unary / not / lambda chains and indentation also nest
-    best = max(best, src.count("not "), src.count("lambda"), max((len(l) - len(l.lstrip(" -+~"))) for l in src.split("\n")) if src else 0)
-    return best
+    runs = [len(m.group(0).replace(" ", "")) for m in re.finditer(r"(?:[-+~] ?)+", src)]
+    indent = max((len(l) - len(l.lstrip(" \t")) for l in src.split("\n")), default=0)
+    return max(best, src.count("not "), src.count("lambda"), src.count(" if "), src.count("**"), src.count("await "), max(runs, default=0), indent)
 
 
 def observe(acc, point, src, fn, *args):
